@@ -518,6 +518,12 @@ fn run_case(spec: &CaseSpec, r: &mut Rng) -> Outcome {
     ops.push(op);
     match res {
       Ok((sent, d)) => {
+        if sent.iter().flatten().any(|x| matches!(x, Sub::Gap(..))) {
+          tags.insert("sent:gap".into());
+        }
+        if sent.iter().flatten().any(|x| matches!(x, Sub::NackFrag(..))) {
+          tags.insert("sent:nackfrag".into());
+        }
         steps.push(format!("({}, {})", dgrams_coq(&sent), d.coq()));
         true
       }
@@ -540,12 +546,35 @@ fn run_case(spec: &CaseSpec, r: &mut Rng) -> Outcome {
     Plan::Random { writes, max_nf, len, mode, loss, dup, reorder } => {
       let mut writes_left = *writes;
       let frag_victim = 1 + r.below(3) as i64; // the fragment number that keeps getting lost (mode 3)
+      // mode 5: the first ACKNACK that requests something stays in flight until the end of the
+      // prefix and is delivered after a cache cleaning (stale, lower base)
+      let mut pinned: Option<Vec<u8>> = None;
       for stepno in 0..*len {
-        let n = sut.inflight.len();
+        if *mode == 5 && pinned.is_none() {
+          pinned = sut
+            .inflight
+            .iter()
+            .find(|(tw, b)| *tw && is_kind(b, &|s| matches!(s, Sub::Ack(_, bits, _) if !bits.is_empty())))
+            .map(|(_, b)| b.clone());
+        }
+        let free: Vec<usize> = (0..sut.inflight.len())
+          .filter(|i| pinned.as_ref().map_or(true, |p| &sut.inflight[*i].1 != p))
+          .collect();
+        let n = free.len();
         // in the second half of "blackout then clear" nothing is lost
         let phase2 = stepno * 2 >= *len;
         let choice = r.below(100);
-        let op = if writes_left > 0 && (choice < 18 || n == 0 && choice < 50) {
+        let tail = *len - stepno; // steps left
+        let op = if *mode == 5 && tail <= 6 {
+          match tail {
+            6 => Op::CacheClean,
+            5 => match pinned.as_ref().and_then(|p| sut.inflight.iter().position(|(_, b)| b == p)) {
+              Some(i) => Op::Deliver(i),
+              None => Op::HbTick,
+            },
+            _ => Op::RepairTick,
+          }
+        } else if writes_left > 0 && (choice < 18 || n == 0 && choice < 50) {
           writes_left -= 1;
           let nf = if *max_nf <= 1 || r.chance(1, 2) { 1 } else { r.range(2, *max_nf) };
           Op::Write(nf)
@@ -562,7 +591,7 @@ fn run_case(spec: &CaseSpec, r: &mut Rng) -> Outcome {
         } else if n == 0 {
           Op::HbTick
         } else {
-          let i = if r.below(100) < *reorder { r.below(n as u64) as usize } else { 0 };
+          let i = free[if r.below(100) < *reorder { r.below(n as u64) as usize } else { 0 }];
           let (to_writer, bytes) = sut.inflight[i].clone();
           let lose = match *mode {
             // uniform loss
@@ -574,7 +603,9 @@ fn run_case(spec: &CaseSpec, r: &mut Rng) -> Outcome {
             // the same fragment number is lost again and again
             3 => is_kind(&bytes, &|s| matches!(s, Sub::Frag(_, f, _) if *f == frag_victim)) || r.below(100) < *loss / 4,
             // every DATA / DATAFRAG is lost in the first half (only heartbeats arrive)
-            _ => !phase2 && is_kind(&bytes, &|s| matches!(s, Sub::Data(_) | Sub::Frag(..))),
+            4 => !phase2 && is_kind(&bytes, &|s| matches!(s, Sub::Data(_) | Sub::Frag(..))),
+            // a stale ACKNACK is kept back; little other loss
+            _ => r.below(100) < *loss / 8,
           };
           if lose {
             lost += 1;
@@ -679,17 +710,23 @@ fn corpus(thorough: bool) -> Vec<CaseSpec> {
       Deliver(0), Drop(0), Drop(0), HbTick, Deliver(0), Drop(0),
     ],
   );
-  // stale ACKNACK (lower base) arrives after a newer one and after cache cleaning
+  // stale ACKNACK (lower base) arrives after a newer one and after cache cleaning: the writer is
+  // asked for sequence numbers below first_seq and answers with the "everything before" GAP
   fixed(
     "stale_acknack_after_cleaning",
     1,
     vec![
-      Write(1), Drop(0), Write(1), Drop(0), Write(1), Drop(0), HbTick, Deliver(0), // ACKNACK base 1 {1,2,3} in flight
-      Write(1), Deliver(0), // DATA 4 + HB: second ACKNACK base 1 {1,2,3}
-      Deliver(1), RepairTick, RepairTick, RepairTick, RepairTick, Deliver(1), Deliver(1), Deliver(1),
-      HbTick, Deliver(1), Deliver(1), // ACKNACK base 5 processed
-      CacheClean, Deliver(0), // the stale ACKNACK base 1 {1,2,3}
-      RepairTick, RepairTick, Deliver(0), Deliver(0),
+      Write(1), Drop(0), Write(1), Drop(0), Write(1), Drop(0),
+      HbTick, Deliver(0), // ACKNACK A1 = base 1 {1,2,3}: stays in flight (index 0) until the end
+      HbTick, Deliver(1), Deliver(1), // second heartbeat, ACKNACK A2 processed
+      RepairTick, RepairTick, RepairTick, RepairTick, // DATA 1,2,3; repair_mode off
+      Deliver(1), Deliver(1), Deliver(1), // the reader has everything
+      HbTick, Deliver(1), Deliver(1), // ACKNACK base 4 processed: all acknowledged
+      CacheClean, // depth 1: first_seq = 3
+      Deliver(0), // the stale A1: all_acked_before back to 1, 1..3 requested again
+      RepairTick, // 1 < first_seq: GAP [1,3)
+      RepairTick, // DATA 3
+      Deliver(0), Deliver(0),
     ],
   );
   fixed(
@@ -791,7 +828,7 @@ pub fn run(args: &Args) -> i32 {
       let depth = *r.pick(&[1i32, 1, 2, 5, 32]);
       let writes = *r.pick(&[1usize, 2, 3, 5, 8, 12]);
       let max_nf = *r.pick(&[1i64, 1, 2, 3, 5]);
-      let mode = r.below(5);
+      let mode = r.below(6);
       let loss = *r.pick(&[0u64, 10, 30, 60, 90]);
       let dup = *r.pick(&[0u64, 0, 10, 30]);
       let reorder = *r.pick(&[0u64, 0, 20, 60]);
@@ -802,7 +839,7 @@ pub fn run(args: &Args) -> i32 {
         max_rounds: 40,
         name: format!(
           "random:{}",
-          ["uniform_loss", "acknacks_lost", "blackout_then_clear", "same_fragment_again", "data_lost_first"][mode as usize]
+          ["uniform_loss", "acknacks_lost", "blackout_then_clear", "same_fragment_again", "data_lost_first", "stale_acknack_after_cleaning"][mode as usize]
         ),
       };
       let mut o = run_case(&spec, &mut r);
